@@ -64,9 +64,13 @@ func (s *synchronizer) sync(_ context.Context, res Response) (Response, bool, er
 	if res.Command == CommandCommit && res.End > s.cycle.res.End {
 		s.cycle.res.End = res.End
 	}
+	if s.cycle.res.Err == nil && res.Err != nil {
+		s.cycle.res.Err = res.Err
+	}
 	fulfilled := s.cycle.counter == s.nodeCount
 	if fulfilled {
 		s.cycle.counter = 0
+		return s.cycle.res, true, nil
 	}
-	return res, fulfilled, nil
+	return res, false, nil
 }
